@@ -1,6 +1,7 @@
 #include "verif.h"
 uint64_t nd_log[ND_MAX];
 int nd_n;
+uint64_t nd_cur;
 #ifdef REPLAY
 #include <sys/mman.h>
 static uint64_t *rp_vals; static int rp_cnt, rp_pos;
